@@ -7,6 +7,12 @@ def gen_cfg(rng):
     cfg = _walk.base_cfg(rng, "klaec")
     edges = [tuple(e) for e in cfg["edges"]]
     f, walks = _walk.error_flow(rng, cfg)
+    if "deep_tail" in cfg.get("graph_tags", []) and rng.random() < 0.8:
+        # the largest value sits at the far end of the tail (or of the way in)
+        heads = {v for _, v in edges}; tails = {u for u, _ in edges}
+        far = [e for e in edges if e[1] not in tails] if rng.random() < 0.7 else [e for e in edges if e[0] not in heads]
+        if far:
+            f[far[0]] = max(f.values()) + rng.choice([1, 2, 5, 9])
     _walk.add_ignore(rng, cfg)
     ign = {tuple(e) for e in cfg["ignore"]}
     for e in ign:                                     # ignored edges escape the non-negativity check
